@@ -113,6 +113,10 @@ def accept_headers(draw, tier="quick"):
 def check_negotiation(case, stats: Stats) -> None:
     from curies.mapping_service.utils import handle_header
 
+    for absent in (None, ""):
+        if handle_header(absent) != XML:
+            raise Violation(f"handle_header({absent!r}) = {handle_header(absent)!r}, an absent Accept header must default to SPARQL XML")
+
     stats.ev()
     h = case["header"]
     admissible = negotiation_oracle(h)
@@ -147,8 +151,11 @@ def service_cases(draw, tier="quick", http=False):
             if bad not in S.all_uri_prefixes(recs):
                 r["uri_prefix_synonyms"].append(bad)
     valid_ups = [u for u in S.all_uri_prefixes(recs) if not any(ch in INVALID_IRI_CHARS for ch in u)]
-    mode = draw(st.integers(0, 4))
-    if mode <= 2:
+    mode = draw(st.integers(0, 5))
+    valid_syns = [u for r in recs for u in r["uri_prefix_synonyms"] if not any(ch in INVALID_IRI_CHARS for ch in u)]
+    if mode == 5 and valid_syns:
+        uri = draw(st.sampled_from(valid_syns)) + draw(st.sampled_from(["1", "a/b", "0001"]))  # a synonym rendering
+    elif mode <= 2 or mode == 5:
         uri = draw(st.sampled_from(valid_ups)) + draw(st.sampled_from(["1", "", "a/b", "x_1", "0001", "A#b"]))
     elif mode == 3:
         uri = draw(st.sampled_from(["http://unknown.example/1", "urn:x:1", "https://h", "http://g.or"]))
@@ -324,7 +331,7 @@ def check_http(case, stats: Stats) -> None:
 
 SUBS = [
     Sub(name="negotiation", check=check_negotiation, strategy=lambda tier: accept_headers(tier), n={"quick": 4000, "thorough": 20000},
-        required_classes=("nt:whitespace+q+2supported", "header:absent", "header:compact")),
+        required_classes=("nt:whitespace+q+2supported", "header:compact")),
     Sub(name="graph", check=check_graph, strategy=lambda tier: service_cases(tier), n={"quick": 200, "thorough": 600},
         required_classes=("recognised", "unrecognised", "other-predicate", "nt:queried-uri-is-synonym-rendering", "nt:invalid-iri-synonym-filtered", "converter-extended-after-graph-built")),
     Sub(name="http", check=check_http, strategy=lambda tier: service_cases(tier, http=True), n={"quick": 60, "thorough": 200},
